@@ -79,7 +79,16 @@ fn simulate(ctx: &RunCtx) -> Result<(serde_json::Value, bool), Violation> {
     let mut steps = 0u32;
     // a violation that is recorded but does not end the run (so that a frequent one cannot starve the rest)
     let mut deferred: Option<Violation> = None;
-    let mk = |rule: &str, d: String| Violation::new(rule, format!("{d} [capacity {capacity}, blocked limit {max_blocked}, capacity changes {change_capacity}]")).fact("mode", if change_capacity { "capacity_change" } else { "fixed_capacity" }).fact("capacity_class", if capacity == 0 { "zero" } else if capacity < 64 { "one_entry" } else if capacity <= 512 { "small" } else { "large" });
+    let mut deferred_unacked: Option<Violation> = None;
+    // set once the encoder has evicted an entry whose insertion the decoder had not acknowledged (RFC 9204
+    // 2.1.1 forbids it: the wrap-around coding of the Required Insert Count relies on it); every later
+    // violation of the run carries it as a fact, because it may be a consequence
+    let unacked = std::cell::Cell::new(false);
+    // set once a section with a non-zero Required Insert Count was encoded or presented for decoding while
+    // the current capacity gives another MaxEntries than the maximum capacity (known finding: h3 uses the
+    // current capacity in the RFC 9204 4.5.1.1 arithmetic); every later violation carries it as a fact
+    let capdiff = std::cell::Cell::new(false);
+    let mk = |rule: &str, d: String| Violation::new(rule, format!("{d} [capacity {capacity}, blocked limit {max_blocked}, capacity changes {change_capacity}]")).fact("after_unacked_eviction", if unacked.get() { "true" } else { "false" }).fact("maxentries_differed", if capdiff.get() { "true" } else { "false" }).fact("mode", if change_capacity { "capacity_change" } else { "fixed_capacity" }).fact("capacity_class", if capacity == 0 { "zero" } else if capacity < 64 { "one_entry" } else if capacity <= 512 { "small" } else { "large" });
 
     loop {
         steps += 1;
@@ -144,18 +153,26 @@ fn simulate(ctx: &RunCtx) -> Result<(serde_json::Value, bool), Violation> {
                 }
                 obs::ev("encode", stream, ebuf.len() as u64);
                 enc_tx.extend_from_slice(&ebuf);
+                if block.first().copied().unwrap_or(0) != 0 && cur_capacity / 32 != capacity / 32 {
+                    capdiff.set(true);
+                }
                 sections.push(Section { stream, bytes: block, fields, delivered: false, done: false, blocked_seen: false, ric: 0, cancelled: false });
                 encoded += 1;
                 // blocked-stream limit as the reference sees it: sections whose Required Insert Count exceeds
                 // what the encoder knows the decoder has received
-                let t_enc_view_inserted = {
+                let (t_enc_view_inserted, t_enc_view_evicted) = {
                     // number of insertions the encoder has made = insert instructions in enc_tx so far
                     let mut t = Table::default();
                     t.set_capacity(capacity);
                     let mut l = vec![];
                     let _ = rq::apply_encoder_stream(&mut t, &enc_tx, &mut l);
-                    t.inserted
+                    (t.inserted, t.evicted)
                 };
+                if t_enc_view_evicted > krc && !unacked.get() {
+                    unacked.set(true);
+                    obs::count("probe.encoder_evicted_unacknowledged_entry");
+                    deferred_unacked = Some(mk("C20.encoder_evicted_unacknowledged_entry", format!("while encoding stream {stream} the encoder had evicted {t_enc_view_evicted} entries although the decoder stream it has received acknowledges only {krc} insertions (RFC 9204 2.1.1: an entry is evictable only once its insertion has been acknowledged)")));
+                }
                 let s = sections.last_mut().unwrap();
                 if let Ok((ric, _, _)) = rq::section_prefix(&s.bytes, max_capacity_seen.max(1), t_enc_view_inserted) {
                     s.ric = ric;
@@ -285,6 +302,9 @@ fn simulate(ctx: &RunCtx) -> Result<(serde_json::Value, bool), Violation> {
         }
         // (re-)present every delivered, undecoded section to the decoder
         for s in sections.iter_mut().filter(|s| s.delivered && !s.done && !s.cancelled) {
+            if s.bytes.first().copied().unwrap_or(0) != 0 && refd.capacity as usize / 32 != capacity / 32 {
+                capdiff.set(true);
+            }
             let refr = rq::decode_section(&refd, &s.bytes, capacity);
             let mut cur = Cursor::new(&s.bytes[..]);
             let real = std::panic::catch_unwind(std::panic::AssertUnwindSafe(|| dec.decode_header(&mut cur)));
@@ -338,6 +358,9 @@ fn simulate(ctx: &RunCtx) -> Result<(serde_json::Value, bool), Violation> {
     // everything has been delivered: nothing may remain blocked
     if let Some(s) = sections.iter().find(|s| !s.done && !s.cancelled) {
         return Err(mk("C20.section_never_decoded", format!("stream {}: all instructions and sections were delivered but the section was never decoded", s.stream)));
+    }
+    if let Some(v) = deferred_unacked {
+        return Err(v);
     }
     if let Some(v) = deferred {
         return Err(v);
